@@ -1,6 +1,9 @@
 package main
 
 import (
+	"os"
+	"bytes"
+	"bufio"
 	"fmt"
 	"strings"
 )
@@ -169,6 +172,39 @@ func init() {
 				}
 				c.AddCase(Case{Line: "msg " + strings.Join(ops, " ") + " " + r.line, Want: want + r.want(), Nontrivial: true,
 					Branch: fmt.Sprintf("%s:before=%v", where[:4], before), Desc: map[string]interface{}{"spec": spc, "failing": where, "before_data": before}})
+				// the same through destinations of other kinds: a buffered writer (it has a Flush method), a file,
+				// Msg.Write; whatever the destination can do besides Write, the failure must be reported
+				for _, kind := range []string{"bufio", "file", "Write"} {
+					var err2 error
+					func() {
+						defer func() {
+							if p := recover(); p != nil {
+								c.Violate("c12-panic", fmt.Sprintf("render into a %s destination panicked when producer %s failed: %v", kind, where, p), spc)
+								err2 = fmt.Errorf("panic")
+							}
+						}()
+						switch kind {
+						case "bufio":
+							bw := bufio.NewWriter(&bytes.Buffer{})
+							_, err2 = m.WriteTo(bw)
+						case "file":
+							f, ferr := os.CreateTemp("", "gmverif-c12-*.eml")
+							if ferr != nil {
+								err2 = ferr
+								return
+							}
+							name := f.Name()
+							_ = f.Close()
+							defer os.Remove(name)
+							err2 = m.WriteToFile(name)
+						default:
+							_, err2 = m.Write(&bytes.Buffer{})
+						}
+					}()
+					if err2 == nil {
+						c.Violate("c12-silent-success", fmt.Sprintf("render into a %s destination returned nil although producer %s failed", kind, where), spc)
+					}
+				}
 			}
 		}})
 }
